@@ -6,16 +6,16 @@ use crate::{engine::*, fsdrive::*, fsgen::*, fstypes::Op, props::c01::check_hist
 pub const OPTS: StepOpts = StepOpts { model_compare: false, api_view: true };
 
 pub fn cfg_wild() -> GenCfg {
-    GenCfg { names: NAMES_ADV, avoid_through_link: false, plain_spelling: false, wild: true }
+    GenCfg { names: NAMES_ADV, avoid_through_link: false, plain_spelling: false, wild: true, handles: true }
 }
 pub fn cfg_wild_small() -> GenCfg {
-    GenCfg { names: NAMES3, avoid_through_link: false, plain_spelling: false, wild: true }
+    GenCfg { names: NAMES3, avoid_through_link: false, plain_spelling: false, wild: true, handles: true }
 }
 
 pub fn run(c: &Ctx) {
-    c.set_rule("histories of every trait method with the unrestricted argument generator (paths through links, root as any argument, empty string, long '..' chains, 300-byte names, src==dst, src ancestor/descendant of dst, every builder option, failing calls kept in), from a fresh Memfs; after EVERY step the raw dump (hook H2) must satisfy: every key but the root has a parent key that is a real directory and lists it; every listed name exists; regular non-link files and only they have byte content; entry.path == key; cwd/root absolute and clean; no children below non-directories; lock not poisoned; and the public API view (exists/mode/owner/read/readlink_abs/cwd) equals the stored state. Non-trivial = history containing a failing call or a two-path op; distinct by concrete op list.");
+    c.set_rule("histories of every trait method with the unrestricted argument generator (paths through links, root as any argument, empty string, long '..' chains, 300-byte names, src==dst, src ancestor/descendant of dst, every builder option, failing calls kept in; write()/append() handles that stay open across later steps - so a handle can outlive, or be flushed after, the removal, replacement or move of its file), from a fresh Memfs; after EVERY step the raw dump (hook H2) must satisfy: every key but the root has a parent key that is a real directory and lists it; every listed name exists; regular non-link files and only they have byte content; entry.path == key; cwd/root absolute and clean; no children below non-directories; lock not poisoned; and the public API view (exists/mode/owner/read/readlink_abs/cwd) equals the stored state. Non-trivial = history containing a failing call or a two-path op; distinct by concrete op list.");
     c.assume("Memfs::verif_dump (hook H2) is a faithful copy of the internal indexes");
-    let n = c.tier.pick(6_000, 120_000);
+    let n = c.tier.pick(30_000, 300_000);
     let cfg = cfg_wild_small();
     run_proptest("ops", 301, || history(50), n, |specs: &Vec<OpSpec>| check_history(c, specs, &cfg, &OPTS, "ops"));
     let cfg2 = cfg_wild();
